@@ -21,7 +21,7 @@ CLAUSES = {'C02': C02_CLAUSES, 'C03': C03_CLAUSES, 'C08': C08_CLAUSES}
 
 
 def mc_cfg(specdir, name, nb, bars, maxh, maxdepth, mode, emit=0, invariants=('NoBadStep',), view=True,
-           starts=None):
+           starts=None, with_dq=False):
     """Write <name>.tla (root module with the start logs) and <name>.cfg."""
     starts = starts or [[]]
     with open(os.path.join(specdir, name + '.tla'), 'w') as f:
@@ -30,7 +30,7 @@ def mc_cfg(specdir, name, nb, bars, maxh, maxdepth, mode, emit=0, invariants=('N
     txt = ['SPECIFICATION Spec', 'CONSTANTS', '  NBibs = %d' % nb,
            '  BarValues = {%s}' % ', '.join(str(b) for b in bars), '  MaxH = %d' % maxh,
            '  MaxDepth = %d' % maxdepth, '  Mode = "%s"' % mode, '  EmitEvery = %d' % emit,
-           '  StartLogs <- StartLogsDef', 'CONSTRAINT Bound']
+           '  StartLogs <- StartLogsDef', '  WithDQ = %s' % ('TRUE' if with_dq else 'FALSE'), 'CONSTRAINT Bound']
     if view:
         txt.append('VIEW View')
     for i in invariants:
@@ -46,7 +46,7 @@ def script(text):
     calls = []
     for tok in text.split():
         if tok[0] == '+':
-            calls.append(E('add', tok[1:]))
+            calls.append(E('addq', tok[1:-1]) if tok.endswith('!') else E('add', tok[1:]))
         elif tok[0] == '|':
             calls.append(E('bar', '', int(tok[1:])))
         else:
@@ -596,6 +596,8 @@ def suite_traces(sc):
 def fmt_call(c):
     if c['op'] == 'add':
         return '+%s' % c['b']
+    if c['op'] == 'addq':
+        return '+%s!' % c['b']
     if c['op'] == 'bar':
         return '|%d' % c['h']
     return '%s%s' % (c['b'], c['op'])
